@@ -237,7 +237,7 @@ def unit_cmds(u, b, out):
         for k, v in (u.get('stubs') or {}).items():
             gi += ['--replace-calls', '%s:%s' % (k, v)]
         gi += [ugb, igb]
-        cb = ['cbmc', igb, '--json-ui'] + NO_DEFAULTS + STD_CHECKS
+        cb = ['cbmc', igb, '--json-ui', '--drop-unused-functions'] + NO_DEFAULTS + STD_CHECKS
         cb += ['--unwind', str(u.get('unwind', 5))]
         cb += ['--unwinding-assertions'] if not u.get('partial_loops') else ['--no-unwinding-assertions']
         for k, v in (u.get('unwindset') or {}).items():
